@@ -297,6 +297,12 @@ func (maps *trackedMaps) processUnfiltered(ctx context.Context, ef *Filter, filt
 				if err != nil {
 					return fmt.Errorf("%s: unable to create new tracked maps for slice: %w", op, err)
 				}
+				if taggable, ok := v.MapIndex(key).Interface().(Taggable); ok && fPtr {
+					// a taggable struct: its tags apply before the defaults
+					if err := ef.filterTaggable(ctx, taggable, filterOverrides, newMaps, opt...); err != nil {
+						return fmt.Errorf("%s: unable to filter taggable struct: %w", op, err)
+					}
+				}
 				f := field
 				if !fPtr {
 					// a struct stored by value in a map is not settable: filter an
@@ -319,6 +325,12 @@ func (maps *trackedMaps) processUnfiltered(ctx context.Context, ef *Filter, filt
 				newMaps, err := newTrackedMaps(&tMap{value: field})
 				if err != nil {
 					return fmt.Errorf("%s: unable to filter map: %w", op, err)
+				}
+				if taggable, ok := v.MapIndex(key).Interface().(Taggable); ok {
+					// a taggable map: its tags apply before the defaults
+					if err := ef.filterTaggable(ctx, taggable, filterOverrides, newMaps, opt...); err != nil {
+						return fmt.Errorf("%s: unable to filter taggable map: %w", op, err)
+					}
 				}
 				if err := newMaps.processUnfiltered(ctx, ef, filterOverrides, opt...); err != nil {
 					return fmt.Errorf("%s: unable to process maps found in map: %w", op, err)
